@@ -51,6 +51,7 @@ type ShipConnection struct {
 	//
 	// ProlongationRequestReply SHIP 13.4.4.1.3: Detection of response timeout on prolongation request.
 	handshakeTimerRunning  bool
+	closeReported          bool // the end of the connection has been reported
 	handshakeTimerDisabled bool // set once the connection is closed, no timer may be started anymore
 	handshakeTimerType     timeoutTimerType
 	handshakeTimerStopChan chan struct{}
@@ -198,6 +199,7 @@ func (c *ShipConnection) CloseConnection(safe bool, code int, reason string) {
 
 				//
 				c.dataWriter.CloseDataConnection(4001, "close")
+				c.setCloseReported()
 				c.infoProvider.HandleConnectionClosed(c, handshakeEnd)
 			}()
 			return
@@ -209,6 +211,7 @@ func (c *ShipConnection) CloseConnection(safe bool, code int, reason string) {
 		}
 		c.dataWriter.CloseDataConnection(closeCode, reason)
 
+		c.setCloseReported()
 		c.infoProvider.HandleConnectionClosed(c, handshakeEnd)
 	})
 }
